@@ -45,4 +45,5 @@ def main(tier):
     chk.run("R-INTRANGE", RG.intrange, r, parts=('backend',), floor=4)
     chk.run("R-BOUNDARY", RG.boundary, r, only_wider=True, floor=130)
     chk.run("R-TEXTSIG", B.textsig, r, cx.templates, floor=2)
+    chk.run("R-TEXTPAIR", B.textpair, cx.repo, cx.templates, cx.cpp, floor=4)
     return chk.finish()
